@@ -420,7 +420,10 @@ func (r *transport) handleStaleWhileRevalidate(
 	noCacheQualified bool,
 	noCacheFieldsSeq iter.Seq[string],
 ) (*http.Response, error) {
-	req2 := req.Clone(req.Context())
+	// The revalidation outlives the caller's request: it keeps the values of the
+	// caller's context but not its cancellation (an http.Client with a Timeout cancels
+	// the request context as soon as the body has been read); the SWR timeout bounds it.
+	req2 := req.Clone(context.WithoutCancel(req.Context()))
 	condReq := withConditionalHeaders(req2, stored.Data.Header)
 	// Background revalidation is "best effort"; it is not guaranteed to complete
 	// if the program exits before the goroutine finishes. This design choice was
